@@ -33,6 +33,7 @@ func properties() map[string]*PropertySpec {
 			c01("H_C01_search", "search ok", "scope 0..2, deref 0..3, limits 0..2^31-1, <= 3 attributes, <= 1 control", ""),
 			c01("H_C01_searchfilter", "search ok", "filter: present, or an attribute-value assertion (=, >=, <=, ~=) with a value of 1..2 arbitrary bytes; the expected text is go-ldap's DecompileFilter of that node (exact engine model for these shapes, cross-checked natively)", ""),
 			c01("H_C01_modify", "modify ok", "<= 1 change x <= 2 values, strings < 12 bytes, <= 1 control", ""),
+			c01("H_C01_modify_long", "modify ok", "one change x <= 1 value of up to 299 bytes (length octets in the short, 0x81 and 0x82 forms)", ""),
 			c01("H_C01_modify2", "modify ok", "<= 2 changes x <= 2 values, strings < 12 bytes", "thorough"),
 			c01("H_C01_add", "add ok", "<= 2 attributes x <= 2 values, <= 1 control", ""),
 			c01("H_C01_delete", "delete ok", "<= 1 control", "quick"),
@@ -101,6 +102,7 @@ func properties() map[string]*PropertySpec {
 		Harnesses: []HarnessSpec{
 			nat("H_C06_numbering", "numbered", "1..3 frames of symbolic kind (delete, add, extended operation with any name <= 24 bytes other than StartTLS), optional read error at the end; late schedule", ""),
 			nat("H_C03_pairing", "paired", "eager schedule: request j = j-th frame, writer/request pairing", ""),
+			nat("H_C13_starttls", "starttls", "numbering across a StartTLS upgrade at every position of 1..3 frames", ""),
 			eng("H_C06_blockedwriter", "blockedwriter", "2..3 pipelined requests on a connection whose client never reads (handlers block inside Write) plus a second connection", ""),
 		}})
 	add(&PropertySpec{ID: "C13",
@@ -163,6 +165,7 @@ func properties() map[string]*PropertySpec {
 		Harnesses: []HarnessSpec{
 			nat("H_C09_step", "step", "inductive step: any connection id n in 1..2^63-1 and any request number k >= 1 (all 64-bit values)", ""),
 			eng("H_C09_ids", "ids", "1..2 connections x 1..2 requests, every child-first/spawner-first choice at each go statement", ""),
+			nat("H_C13_starttls", "starttls", "the connection's ID (7) is what every request reports before, during and after a StartTLS upgrade at request number 1..3", ""),
 			eng("H_C09_overlap", "ids", "2 connections x 1 request whose set-up may overlap: child-first/spawner-first for the connection goroutines plus one preemption at any synchronisation point (lock, wait group, atomic operation)", ""),
 			eng("H_C09_ids3", "ids", "1..3 connections x 1..2 requests; child-first/spawner-first explored for the connection goroutines only", ""),
 		}})
@@ -170,7 +173,7 @@ func properties() map[string]*PropertySpec {
 		Functions: "(*Server).Stop, (*Server).Run, Run$1 incl. the shutdown watcher, (*conn).serveRequests (shutdown branch), (*conn).close",
 		Outside:   []string{"'bounded time' is decided as termination that needs no client action (no wall-clock figure)", "one connection per scenario (Stop waits on a counter; connections do not interact)"},
 		Harnesses: []HarnessSpec{
-			eng("H_C11_stop", "stopped", "connection state at Stop: none, idle, TLS handshake pending, pipelining then idle, not reading its responses, Stop arriving between two requests of a pipelining client that never reads (shutdown branch of the read loop, handlers still writing), slow handlers writing after the shutdown notice to a client whose window is full; with/without read timeout; optional concurrent second Stop", ""),
+			eng("H_C11_stop", "stopped", "connection state at Stop: none, idle, TLS handshake pending, pipelining then idle, not reading its responses, Stop arriving between two requests of a pipelining client that never reads (shutdown branch of the read loop, handlers still writing), slow handlers writing after the shutdown notice to a client whose window is full, a connection that Accept returns although Stop has already closed the listener; with/without read timeout; optional concurrent second Stop", ""),
 		}})
 	add(&PropertySpec{ID: "C12",
 		Functions: "(*Server).Stop, (*Server).Run, Run$1 teardown (close, OnClose, connWg.Done), (*conn).close",
@@ -183,7 +186,7 @@ func properties() map[string]*PropertySpec {
 		Functions: "(*Server).Run (validateAddrPort, Listen, listenerReady), (*Server).Ready, (*Server).Stop",
 		Outside:   []string{"address forms: the ten rows listed in the harness; the resolver's answer and Listen's outcome are symbolic", "after Stop the flag is not required to drop (the property speaks of the interval until Stop is called)"},
 		Harnesses: []HarnessSpec{
-			eng("H_C17_ready", "run ok", "optionally (TLS) a silent peer that never starts its handshake connects first; 10 address forms x resolver answer x Listen outcome x 0..2 concurrent Ready pollers x spawn-order schedules", ""),
+			eng("H_C17_ready", "run ok", "optionally (TLS) a silent peer that never starts its handshake connects first; the address may be in use at the first attempt to listen; 12 address forms (incl. ports outside 0..65535) x resolver answer x Listen outcome x 0..2 concurrent Ready pollers x spawn-order schedules", ""),
 		}})
 	td := func(name, reach, bound, tiers string) HarnessSpec {
 		return HarnessSpec{Name: name, Pkg: "testdirectory", Native: true, Reach: []string{reach}, Bound: bound, Tiers: tiers,
@@ -194,6 +197,7 @@ func properties() map[string]*PropertySpec {
 		Outside:   []string{"more than 2 (quick) / 3 (thorough) user entries, 2 attributes x 2 values each", "transport independence (plain / TLS / StartTLS) follows from C13 and C18: the handler never touches the connection", "controls attached to successful binds (SetControls) are not part of the statement"},
 		Harnesses: []HarnessSpec{
 			td("H_TD_C19_bind", "bind answered", "<= 2 users x <= 2 attributes x <= 2 values, all names/values/DNs/passwords unbounded symbolic strings (duplicate DNs, prefix DNs, missing or empty password attributes included), both AllowAnonymousBind settings", ""),
+			td("H_TD_C19_seq", "bind sequence", "bind, then one change (LDAP delete / add / modify-replace / modify-delete of the password, SetUsers, or none), then bind again over a pool of 2 DNs and the passwords that ever existed: the second answer follows the current entries", ""),
 			td("H_TD_C19_bind3", "bind answered", "<= 3 users (first with <= 2 attributes x <= 2 values, the others <= 1 x <= 1)", "thorough"),
 		}})
 	add(&PropertySpec{ID: "C20",
@@ -209,6 +213,7 @@ func properties() map[string]*PropertySpec {
 		Outside:   []string{"that a TLS connection yields application bytes only after a handshake satisfying its configuration is the crypto/tls contract (DESIGN §5.5): assumed, not verified; plaintext bytes, a missing or wrong client certificate and an abandoned connect are all 'the handshake does not complete'", "testdirectory.GetTLSConfig / Start run with the x509 / ecdsa / pem / big / testify calls replaced by opaque stubs that never fail: only the configuration plumbing (ClientAuth, ClientCAs identity, which configuration reaches the listener) is decided"},
 		Harnesses: []HarnessSpec{
 			eng("H_C18_tls", "tls", "server certificate from a static list, a GetCertificate callback or a GetConfigForClient callback; configurations {none, server authentication, client certificate required} x first client {conforming, failing handshake, abandoned connect} with a conforming second client, spawn-order schedules", ""),
+			eng("H_C17_ready", "run ok", "Run start-up variants (address forms, Listen failing, the address briefly in use at the first attempt, TLS or not): whenever Run serves with a TLS configuration, the handler runs on a TLS connection", ""),
 			{Name: "H_TD_C18_config", Pkg: "testdirectory", Reach: []string{"config"}, Bound: "GetTLSConfig with / without WithMTLS; x509 / ecdsa / pem / testify calls are opaque stubs that never fail",
 				Tweak: func(c *HarnessCfg, tier string) { c.OpaquePkgs = tdOpaque }},
 			{Name: "H_TD_C18_start", Pkg: "testdirectory", Reach: []string{"start"}, Bound: "Start with every subset of {WithNoTLS, WithMTLS}: the configuration the listener is wrapped with",
@@ -294,6 +299,9 @@ func properties() map[string]*PropertySpec {
 			{Name: "H_TD_C15_directory", Pkg: "testdirectory", Reach: []string{"directory workload"}, PO: poRaces,
 				Tweak: func(c *HarnessCfg, tier string) { c.ExtraPkgs["golang.org/x/exp/slices"] = true },
 				Bound: "one served operation (bind, user search, add, modify, delete) concurrently with one of the 8 Set*/getter calls"},
+			{Name: "H_TD_C15_pair", Pkg: "testdirectory", Reach: []string{"directory pair"}, PO: poRaces,
+				Tweak: func(c *HarnessCfg, tier string) { c.ExtraPkgs["golang.org/x/exp/slices"] = true },
+				Bound: "two served operations at once on one user entry: reader (user search, bind) x writer (modify add-value / replace, add, delete); tracked: Directory fields, the entry and its attribute objects"},
 		}})
 	add(&PropertySpec{ID: "C02",
 		Functions: "(*conn).readRequest, (*conn).readPacket, newRequest, newMessage, (*packet).{basicValidation,requestPacket,requestType,requestMessageID,simpleBindParameters,searchParmeters,modifyParameters,addParameters,deleteParameters,extendedOperationName,controlPacket,assert,assertApplicationRequest}, decodeControl, decodeAttribute, NewControl*",
